@@ -423,63 +423,32 @@ pub(crate) fn validate_channelmodes<'a>(
     })
 }
 
-fn starts_single_wilcards<'a>(pattern: &'a str, text: &'a str) -> bool {
-    if pattern.len() <= text.len() {
-        pattern
-            .bytes()
-            .enumerate()
-            .all(|(i, c)| c == b'?' || c == text.as_bytes()[i])
-    } else {
-        false
-    }
-}
-
 pub(crate) fn match_wildcard<'a>(pattern: &'a str, text: &'a str) -> bool {
-    let mut pat = pattern;
-    let mut t = text;
-    let mut asterisk = false;
-    while !pat.is_empty() {
-        let (newpat, m, cur_ast) = if let Some(i) = pat.find('*') {
-            (&pat[i + 1..], &pat[..i], true)
+    // match character by character (not byte by byte) to handle multi-byte characters.
+    let pat = pattern.chars().collect::<Vec<_>>();
+    let txt = text.chars().collect::<Vec<_>>();
+    let (mut p, mut t) = (0, 0);
+    // position after last asterisk in pattern and position in text where
+    // matching after this asterisk has been started.
+    let mut last_ast: Option<(usize, usize)> = None;
+    while t < txt.len() {
+        if p < pat.len() && pat[p] != '*' && (pat[p] == '?' || pat[p] == txt[t]) {
+            p += 1;
+            t += 1;
+        } else if p < pat.len() && pat[p] == '*' {
+            p += 1;
+            last_ast = Some((p, t));
+        } else if let Some((ast_p, ast_t)) = last_ast {
+            // no match - last asterisk consumes one character more.
+            p = ast_p;
+            t = ast_t + 1;
+            last_ast = Some((ast_p, ast_t + 1));
         } else {
-            (&pat[pat.len()..pat.len()], pat, false)
-        };
-
-        if !m.is_empty() {
-            if !asterisk {
-                // if first match
-                if !starts_single_wilcards(m, t) {
-                    return false;
-                }
-                t = &t[m.len()..];
-            } else if cur_ast || !newpat.is_empty() {
-                // after asterisk. only if some rest in pattern and
-                // if last current character is asterisk
-                let mut i = 0;
-                // find first single wildcards occurrence.
-                while i <= t.len() - m.len() && !starts_single_wilcards(m, &t[i..]) {
-                    i += 1;
-                }
-                if i <= t.len() - m.len() {
-                    // if found
-                    t = &t[i + m.len()..];
-                } else {
-                    return false;
-                }
-            } else {
-                // if last pattern is not asterisk
-                if !starts_single_wilcards(m, &t[t.len() - m.len()..]) {
-                    return false;
-                }
-                t = &t[t.len()..t.len()];
-            }
+            return false;
         }
-
-        asterisk = true;
-        pat = newpat;
     }
-    // if last character in pattern is '*' or text has been fully consumed
-    (!pattern.is_empty() && pattern.as_bytes()[pattern.len() - 1] == b'*') || t.is_empty()
+    // text has been fully consumed - only asterisks can be in rest of pattern.
+    pat[p..].iter().all(|c| *c == '*')
 }
 
 // normalize source mask - for example '*' to '*!*@*'
